@@ -133,9 +133,13 @@ def run_passes(prog, entries, crates, max_depth=7, max_passes=6, log=None, setup
             if h is not None:
                 skipped[b.path] = h
                 continue
+            is_async = (prog.fns.get(b.raw_path) or {}).get('async')
             for sub in instantiations(prog, b):
-                fr, out = an.analyze_entry(b, subst=sub)
-                inv.check_mut_self_exit(an, b, fr, out)
+                if is_async:
+                    fr, out = absint_interp.analyze_async_entry(an, b, subst=sub)
+                else:
+                    fr, out = an.analyze_entry(b, subst=sub)
+                    inv.check_mut_self_exit(an, b, fr, out)
         ch = inv.merge_pass()
         if log:
             log('pass %d: %d entries analysed, %d skipped (type not yet constructed), %d obligations, invariants changed=%s, %.1fs' % (
